@@ -35,6 +35,8 @@ type Input struct {
 	Variant string `json:"variant,omitempty"`
 	// Hist: a history run on the table (live rows + twins) after everything else
 	Hist []HOp `json:"hist,omitempty"`
+	// Assoc: run the association paths on this case whatever its position (corpus inputs)
+	Assoc bool `json:"assoc,omitempty"`
 }
 
 type Obs struct {
@@ -407,7 +409,7 @@ func (e *env) run(in Input) Obs {
 	fail("reset", e.reset(in, false))
 	// (the association paths do not depend on the chain: every third case runs them)
 	e.n++
-	if e.n%3 == 1 {
+	if e.n%3 == 1 || in.Assoc {
 		var errs []string
 		o.NAssoc, o.NUAssoc, errs = e.assoc(in, false)
 		o.Errs = append(o.Errs, errs...)
@@ -559,6 +561,17 @@ func (e *env) assoc(in Input, twins bool) ([][]int64, [][]int64, []string) {
 	out = append(out, keeperIDs(pets, true))
 	pets = nil
 	fail("innerjoins_on", db.InnerJoins("Keeper", db.Where("name = ? OR name = ?", "k", "zz")).Order("pets.id").Find(&pets).Error)
+	ids = []int64{}
+	for _, p := range pets {
+		ids = append(ids, p.ID)
+	}
+	out = append(out, ids)
+	// ON conditions that are a chain with an OR alternative (two units, not one raw string)
+	pets = nil
+	fail("joins_on_or", db.Joins("Keeper", db.Where("name = ?", "zz").Or("name = ?", "k")).Order("pets.id").Find(&pets).Error)
+	out = append(out, keeperIDs(pets, true))
+	pets = nil
+	fail("innerjoins_on_or", db.InnerJoins("Keeper", db.Where("name = ?", "zz").Or("name = ?", "k")).Order("pets.id").Find(&pets).Error)
 	ids = []int64{}
 	for _, p := range pets {
 		ids = append(ids, p.ID)
